@@ -395,9 +395,31 @@ func (it *interp) merge(a, b *disjunct) *disjunct {
 	}
 	tryKeep(fa, b.fkeys, db)
 	tryKeep(fb, a.fkeys, da)
-	// hull candidates for the pending atoms: bounds by each side's expression and small constants
+	// hull candidates for the pending atoms: bounds by each side's expression and small
+	// constants, plus every fact one side knows about its own value (when that value is a single
+	// variable) re-stated for the merged atom
 	for _, p := range pend {
 		cands := []lin.Ineq{lin.LE(p.at, p.la), lin.GE(p.at, p.la), lin.LE(p.at, p.lb), lin.GE(p.at, p.lb)}
+		for side, l := range []*lin.Lin{p.la, p.lb} {
+			v, single := l.SingleVar()
+			if !single {
+				continue
+			}
+			src := a.facts
+			if side == 1 {
+				src = b.facts
+			}
+			n := 0
+			for _, q := range src {
+				if q.L.Has(v) && len(q.L.Vars()) <= 3 {
+					cands = append(cands, q.Subst(v, p.at))
+					n++
+					if n > 12 {
+						break
+					}
+				}
+			}
+		}
 		for _, c := range []int64{-1, 0, 1, 2, 3, 4} {
 			cands = append(cands, lin.GE(p.at, lin.Const(c)))
 		}
